@@ -1,13 +1,13 @@
 #!/bin/bash
 # confirm and run every delivered sub-agent change that has not been processed yet
 cd /verif
-for f in /tmp/seed3/C*/out/m*.diff; do
+for f in ${SEED_ROOT:-/tmp/seed3}/C*/out/m*.diff; do
   [ -f "$f" ] || continue
-  id=$(echo $f | sed 's#/tmp/seed3/\(C[0-9]*\)/out/m\([0-9]*\).diff#\1#'); k=$(echo $f | sed 's#.*/m\([0-9]*\).diff#\1#')
-  [ -f /tmp/seed3/$id/out/m$k.json ] && [ -f /tmp/seed3/$id/out/m${k}_demo_test.go ] || continue
-  if [ ! -d seeded/$id-${SEED_TAG:-}m$k ] && [ ! -f /tmp/seed3/$id/out/m$k.rejected ]; then
+  id=$(echo $f | sed 's#${SEED_ROOT:-/tmp/seed3}/\(C[0-9]*\)/out/m\([0-9]*\).diff#\1#'); k=$(echo $f | sed 's#.*/m\([0-9]*\).diff#\1#')
+  [ -f ${SEED_ROOT:-/tmp/seed3}/$id/out/m$k.json ] && [ -f ${SEED_ROOT:-/tmp/seed3}/$id/out/m${k}_demo_test.go ] || continue
+  if [ ! -d seeded/$id-${SEED_TAG:-}m$k ] && [ ! -f ${SEED_ROOT:-/tmp/seed3}/$id/out/m$k.rejected ]; then
     out=$(tools/confirm_seed.sh $id $k 2>&1); echo "$id m$k: $(echo "$out" | tail -1)"
-    echo "$out" | grep -q CONFIRMED || echo "$out" > /tmp/seed3/$id/out/m$k.rejected
+    echo "$out" | grep -q CONFIRMED || echo "$out" > ${SEED_ROOT:-/tmp/seed3}/$id/out/m$k.rejected
   fi
   if [ -d seeded/$id-${SEED_TAG:-}m$k ] && [ ! -f seeded/$id-${SEED_TAG:-}m$k/result.json ]; then tools/seeded.py run seeded/$id-${SEED_TAG:-}m$k; fi
 done
